@@ -15,7 +15,11 @@ from . import core
 AXES = ["sample", "observation"]
 MODES = ["identical", "permuted", "partial", "disjoint", "mixed"]
 HISTS = ["none", "none", "copy", "filter_other", "sort_rev", "sort_axis_rev", "transposed", "concat_prior",
-         "update_ids", "drop_md"]
+         "update_ids", "drop_md", "swap_other", "rotate_other_ip", "swap_axis_ip", "rotate_axis", "transpose2x"]
+# table -> table steps that may follow the first one (an operand's history is a string or a list of steps)
+STEPS = ["copy", "filter_other", "sort_rev", "sort_axis_rev", "drop_md", "transpose2x", "swap_other", "swap_other_ip",
+         "rotate_other", "rotate_other_ip", "reverse_other_ip", "swap_axis", "swap_axis_ip", "rotate_axis",
+         "rotate_axis_ip"]
 EXACT = ("count", "smallcount", "dyadic", "neg")
 
 
@@ -56,41 +60,83 @@ def sub_spec(spec, axis, idx):
     return s
 
 
-def build_operand(rec, axis):
-    """materialise one operand recipe {spec, route, hist} as a real Table"""
-    spec, route, hist = rec["spec"], rec["route"], rec["hist"]
-    if len(spec["obs"]) * len(spec["samp"]) == 0 and route in ("dense", "sort_roundtrip", "transpose2", "lil"):
-        route = "csr"   # empty dense input takes a constructor short-cut that loses the shape (see check_case)
-    oth = other_of(axis)
-    key = "obs" if axis == "observation" else "samp"
-    okey = "samp" if axis == "observation" else "obs"
-    if hist == "transposed":
-        t = core.build(transpose_spec(spec), route).transpose()
-        t.type = spec.get("type")
+def relabel(t, ax, kind, inplace):
+    """update_ids with a map INSIDE the current label set (swap / rotation / reversal): every new label is also an
+    old label that the same map renames"""
+    ids = [str(i) for i in t.ids(axis=ax)]
+    if len(ids) < 2:
         return t
-    if hist == "concat_prior" and len(spec[key]) >= 2:
-        h = len(spec[key]) // 2
-        a = core.build(sub_spec(spec, axis, list(range(h))), route)
-        b = core.build(sub_spec(spec, axis, list(range(h, len(spec[key])))), "dense")
-        return a.concat([b], axis=axis)
-    if hist == "update_ids" and len(spec[key]) >= 1:
-        tmp = copy.deepcopy(spec)
-        tmp[key] = ["tmp%d" % i for i in range(len(spec[key]))]
-        t = core.build(tmp, route)
-        return t.update_ids(dict(zip(tmp[key], spec[key])), axis=axis, inplace=False)
-    t = core.build(spec, route)
-    if hist == "copy":
+    if kind == "swap":
+        m = {ids[0]: ids[-1], ids[-1]: ids[0]}
+    elif kind == "rotate":
+        m = {ids[i]: ids[(i + 1) % len(ids)] for i in range(len(ids))}
+    else:
+        m = {ids[i]: ids[len(ids) - 1 - i] for i in range(len(ids))}
+    m = {a: b for a, b in m.items() if a != b}
+    if not m:
+        return t
+    if inplace:
+        t.update_ids(m, axis=ax, strict=False, inplace=True)
+        return t
+    return t.update_ids(m, axis=ax, strict=False, inplace=False)
+
+
+def apply_step(t, step, axis):
+    """one table -> table step of an operand's history, on the table's CURRENT ids"""
+    oth = other_of(axis)
+    oids = [str(i) for i in t.ids(axis=oth)]
+    aids = [str(i) for i in t.ids(axis=axis)]
+    if step == "copy":
         return t.copy()
-    if hist == "filter_other" and len(spec[okey]) >= 2:
-        return t.filter([spec[okey][0]], axis=oth, invert=True, inplace=False)
-    if hist == "sort_rev" and len(spec[okey]) >= 1:
-        return t.sort_order(list(reversed(spec[okey])), axis=oth)
-    if hist == "sort_axis_rev" and len(spec[key]) >= 1:
-        return t.sort_order(list(reversed(spec[key])), axis=axis)
-    if hist == "drop_md":
+    if step == "filter_other" and len(oids) >= 2:
+        return t.filter([oids[0]], axis=oth, invert=True, inplace=False)
+    if step == "sort_rev" and oids and aids:
+        return t.sort_order(list(reversed(oids)), axis=oth)
+    if step == "sort_axis_rev" and aids and oids:
+        return t.sort_order(list(reversed(aids)), axis=axis)
+    if step == "drop_md":
         t = t.copy()
         t.del_metadata(axis=oth)
         return t
+    if step == "transpose2x":
+        ty = t.type
+        t = t.transpose().transpose()
+        t.type = ty
+        return t
+    for kind in ("swap", "rotate", "reverse"):
+        for which, ax in (("other", oth), ("axis", axis)):
+            if step in ("%s_%s" % (kind, which), "%s_%s_ip" % (kind, which)):
+                return relabel(t, ax, kind, step.endswith("_ip"))
+    return t
+
+
+def build_operand(rec, axis):
+    """materialise one operand recipe {spec, route, hist} as a real Table; hist = first step or list of steps"""
+    spec, route, hist = rec["spec"], rec["route"], rec["hist"]
+    steps = [hist] if isinstance(hist, str) else list(hist)
+    first, rest = (steps[0] if steps else "none"), steps[1:]
+    if len(spec["obs"]) * len(spec["samp"]) == 0 and route in ("dense", "sort_roundtrip", "transpose2", "lil"):
+        route = "csr"   # empty dense input takes a constructor short-cut that loses the shape (see check_case)
+    key = "obs" if axis == "observation" else "samp"
+    if first == "transposed":
+        t = core.build(transpose_spec(spec), route).transpose()
+        t.type = spec.get("type")
+    elif first == "concat_prior" and len(spec[key]) >= 2:
+        h = len(spec[key]) // 2
+        a = core.build(sub_spec(spec, axis, list(range(h))), route)
+        b = core.build(sub_spec(spec, axis, list(range(h, len(spec[key])))), "dense")
+        t = a.concat([b], axis=axis)
+    elif first == "update_ids" and len(spec[key]) >= 1:
+        tmp = copy.deepcopy(spec)
+        tmp[key] = ["tmp%d" % i for i in range(len(spec[key]))]
+        t = core.build(tmp, route)
+        t = t.update_ids(dict(zip(tmp[key], spec[key])), axis=axis, inplace=False)
+    else:
+        t = apply_step(core.build(spec, route), first, axis)
+    for st in rest:
+        if min(t.shape) == 0:
+            break
+        t = apply_step(t, st, axis)
     return t
 
 
@@ -164,7 +210,10 @@ def gen_case(rng, quick, force=None):
         amd = gen_md_mixed(rng, aids, "t%d" % i)
         omd = gen_md_mixed(rng, oids, "t%d" % i)
         spec = make_spec(axis, aids, oids, grid, amd, omd, rng.choice(core.TYPES))
-        ops.append({"spec": spec, "route": rng.choice(core.ROUTES), "hist": rng.choice(HISTS)})
+        hist = [rng.choice(HISTS)]
+        if rng.random() < 0.4:
+            hist += [rng.choice(STEPS) for _ in range(rng.randint(1, 2))]
+        ops.append({"spec": spec, "route": rng.choice(core.ROUTES), "hist": hist if len(hist) > 1 else hist[0]})
     if overlap and k >= 2:
         key = "obs" if axis == "observation" else "samp"
         donors = [i for i in range(k) if ops[i]["spec"][key]]
@@ -186,8 +235,9 @@ def gen_case(rng, quick, force=None):
             sj[key] = list(sj[key])
             sj[key][pos] = rng.choice(ops[i]["spec"][key])
             for o in ops:
-                if o["hist"] in ("concat_prior", "update_ids"):
-                    o["hist"] = "none"
+                h = o["hist"] if isinstance(o["hist"], list) else [o["hist"]]
+                if h[0] in ("concat_prior", "update_ids"):
+                    o["hist"] = ["none"] + h[1:]
     single = (k == 2 and rng.random() < 0.4)
     entry = force.get("entry", rng.choice(["method", "method", "module"]))
     rec = {"axis": axis, "ops": ops, "mode": "single" if (single and entry == "method") else "list",
@@ -202,46 +252,59 @@ def gen_hardening(rng):
     return {"poke": rng.randrange(1 << 30) if rng.random() < 0.6 else None,
             "profile": rng.choice([None] * 7 + ["warn", "call", "raise"]),
             "axis_pos": rng.random() < 0.2,
-            "post": rng.choice([None] * 5 + ["mutate_result", "mutate_operand", "altcall"]),
+            "post": rng.choice([None] * 5 + ["mutate_result", "mutate_operand", "altcall", "reuse_list", "reuse_list"]),
+            "container": "tuple" if rng.random() < 0.05 else "list",
             "post_seed": rng.randrange(1 << 30)}
 
 
-def gen_wide(rng, axis, wide_on):
-    """a few large operand sets per run: >= 64 IDs on the other axis (permuted, partly missing) or on the
-    concatenation axis"""
+def gen_wide(rng, axis, wide_on, n_wide=None, padded=None, entry=None):
+    """large operand sets: 64..320 IDs on the other axis (non-lexicographic order; padded or not) or on the
+    concatenation axis; size-gated code paths seen so far switch at 64, 128 and 256 IDs"""
     k = rng.choice([2, 3])
-    n_wide = rng.choice([64, 70, 100, 130])
+    n_wide = n_wide or rng.choice([64, 70, 100, 130, 200, 257, 300])
+    padded = rng.random() < 0.5 if padded is None else padded
     ops = []
     if wide_on == "other":
-        universe = ["W%03d" % i for i in range(n_wide)]
+        universe = ["W%d" % i for i in range(n_wide)]      # "W10" < "W2": numeric order is not sorted order
         for i in range(k):
-            oids = [x for x in universe if rng.random() < 0.9] if rng.random() < 0.7 else list(universe)
-            rng.shuffle(oids)
+            oids = [x for x in universe if rng.random() < 0.93] if padded else list(universe)
+            style = rng.choice(["shuffle", "numeric", "reversed", "sorted"]) if i else rng.choice(["shuffle", "numeric"])
+            if style == "shuffle":
+                rng.shuffle(oids)
+            elif style == "reversed":
+                oids = sorted(oids, reverse=True)
+            elif style == "sorted":
+                oids = sorted(oids)
             aids = ["%s%d_%d" % ("A" if axis == "sample" else "R", i, j) for j in range(rng.randint(1, 2))]
             grid = core.gen_grid(rng, len(aids), len(oids), 0.5, ("count",))
             spec = make_spec(axis, aids, oids, grid, gen_md_mixed(rng, aids, "t%d" % i),
                              gen_md_mixed(rng, oids, "t%d" % i) if rng.random() < 0.3 else None, None)
-            ops.append({"spec": spec, "route": rng.choice(core.ROUTES), "hist": "none"})
+            ops.append({"spec": spec, "route": rng.choice(core.ROUTES),
+                        "hist": rng.choice(["none", "none", "rotate_other_ip", "swap_other", "transpose2x"])})
     else:
         universe = ["w1", "w0", "w2"]
         for i in range(k):
             oids = list(universe)
             rng.shuffle(oids)
-            if rng.random() < 0.5:
+            if padded:
                 oids = oids[:2]
-            aids = ["%s%d_%03d" % ("A" if axis == "sample" else "R", i, j) for j in range(n_wide if i < 2 else 3)]
+            aids = ["%s%d_%d" % ("A" if axis == "sample" else "R", i, j) for j in range(n_wide if i < 2 else 3)]
+            rng.shuffle(aids)
             grid = core.gen_grid(rng, len(aids), len(oids), 0.5, ("count",))
             spec = make_spec(axis, aids, oids, grid, gen_md_mixed(rng, aids, "t%d" % i) if rng.random() < 0.5 else None,
                              None, None)
-            ops.append({"spec": spec, "route": rng.choice(core.ROUTES), "hist": "none"})
-    rec = {"axis": axis, "ops": ops, "mode": "list", "entry": rng.choice(["method", "module"]), "exact": True}
+            ops.append({"spec": spec, "route": rng.choice(core.ROUTES), "hist": rng.choice(["none", "swap_axis_ip"])})
+    rec = {"axis": axis, "ops": ops, "mode": "list", "entry": entry or rng.choice(["method", "module"]), "exact": True}
     rec.update(gen_hardening(rng))
-    rec["post"] = rng.choice([None, "altcall"])
+    rec["post"] = rng.choice([None, "altcall", "reuse_list"]) if n_wide <= 130 else None
+    rec["container"] = "list"
     return rec
 
 
 # ----------------------------------------------------------------------------- running the real code
-def call_concat(tables, axis, mode, entry, default_axis=False, axis_pos=False):
+def call_concat(receiver, arg, axis, entry, default_axis=False, axis_pos=False):
+    """`arg` is the caller-owned object handed to the library: the others (list/tuple), one bare Table, or for the
+    module entry the sequence of all tables"""
     import biom
     if default_axis and axis == "sample":
         args, kw = (), {}
@@ -250,13 +313,11 @@ def call_concat(tables, axis, mode, entry, default_axis=False, axis_pos=False):
     else:
         args, kw = (), {"axis": axis}
     if entry == "module":
-        return biom.concat(list(tables), *args, **kw)
-    if mode == "single":
-        return tables[0].concat(tables[1], *args, **kw)
-    return tables[0].concat(list(tables[1:]), *args, **kw)
+        return biom.concat(arg, *args, **kw)
+    return receiver.concat(arg, *args, **kw)
 
 
-def run_real(tables, axis, mode, entry, default_axis=False, axis_pos=False, profile=None):
+def run_real(receiver, arg, axis, entry, default_axis=False, axis_pos=False, profile=None):
     """run the real method (optionally under a non-default error profile); returns (outcome, table, profile_ok)"""
     import biom.err as E
     before = dict(E.geterr())
@@ -264,7 +325,7 @@ def run_real(tables, axis, mode, entry, default_axis=False, axis_pos=False, prof
     inside_ok = True
     try:
         if profile is None:
-            r = call_concat(tables, axis, mode, entry, default_axis, axis_pos)
+            r = call_concat(receiver, arg, axis, entry, default_axis, axis_pos)
         else:
             if profile == "call":
                 old_cb = E.geterrcall("empty")
@@ -273,12 +334,12 @@ def run_real(tables, axis, mode, entry, default_axis=False, axis_pos=False, prof
                 warnings.simplefilter("ignore")
                 with E.errstate(empty=profile):
                     try:
-                        r = call_concat(tables, axis, mode, entry, default_axis, axis_pos)
+                        r = call_concat(receiver, arg, axis, entry, default_axis, axis_pos)
                     finally:
                         # the call itself must leave the profile in force as it found it
                         inside_ok = dict(E.geterr()) == dict(before, empty=profile)
     except Exception as e:  # noqa
-        out, r = {"error": core.err_name(e)}, None
+        out, r = {"error": core.err_name(e), "etype": type(e).__name__}, None
     else:
         # observed right after the call, before any other accessor touches the result
         out = {"ok": core.table_obs(r)}
@@ -354,12 +415,14 @@ def own_lookups(t, o, rng, max_cells=30):
 def mutate_inplace(t, rng, exact):
     """in-place changes that keep the same matrix / ID-array / metadata container objects"""
     done = []
-    for op in rng.sample(["update_ids", "md_key", "del_md", "transform", "add_md"], rng.randint(1, 3)):
+    for op in rng.sample(["update_ids", "relabel", "md_key", "del_md", "transform", "add_md"], rng.randint(1, 3)):
         ax = rng.choice(AXES)
         ids = [str(i) for i in t.ids(axis=ax)]
         try:
             if op == "update_ids" and ids:
                 t.update_ids({i: i + "~m" for i in ids}, axis=ax, inplace=True)
+            elif op == "relabel" and len(ids) >= 2:
+                relabel(t, ax, rng.choice(["swap", "rotate", "reverse"]), True)
             elif op == "md_key":
                 md = t.metadata(axis=ax)
                 if md:
@@ -378,14 +441,28 @@ def mutate_inplace(t, rng, exact):
     return done
 
 
-def evaluate(ctx, tables, recipe, tags, stage, axis=None, profile=None, poke_rng=None, look_rng=None):
+def evaluate(ctx, tables, recipe, tags, stage, axis=None, profile=None, poke_rng=None, look_rng=None, batch=None,
+             entry=None):
     """one call of the real method on live tables, judged by the Lean predicate; returns (answer, result table,
     operand observations, result observation)"""
     axis = axis or recipe["axis"]
     mode = recipe["mode"] if len(tables) == 2 or recipe["mode"] == "list" else "list"
-    entry = recipe["entry"]
+    entry = entry or recipe["entry"]
+    if entry == "module":
+        mode = "list"
     look_rng = look_rng or random.Random(recipe.get("post_seed", 0))
     tobs = [slim(core.table_obs(t)) for t in tables]
+    # the object handed to the library stays the caller's: kept, and compared afterwards
+    kind = recipe.get("container", "list") if batch is None else "list"
+    seq = tuple if kind == "tuple" else list
+    if entry == "module":
+        arg = seq(tables) if batch is None else [tables[0]] + batch
+        expected = list(tables)
+    elif mode == "single":
+        arg, expected = tables[1], None
+    else:
+        arg = seq(tables[1:]) if batch is None else batch
+        expected = list(tables[1:])
     if poke_rng is not None:
         # leave every operand in whatever layout a few earlier reads put it in
         import numpy as np
@@ -394,8 +471,9 @@ def evaluate(ctx, tables, recipe, tags, stage, axis=None, profile=None, poke_rng
             for t in tables:
                 for c in core.poke_layout(t, poke_rng):
                     ctx.count("poke=" + c.split("!")[0])
-    res, r, prof_ok = run_real(tables, axis, mode, entry, recipe.get("default_axis", False) and stage == "call",
+    res, r, prof_ok = run_real(tables[0], arg, axis, entry, recipe.get("default_axis", False) and stage == "call",
                                recipe.get("axis_pos", False), profile)
+    etype = res.pop("etype", None)
     req = {"axis": axis, "tables": tobs, "mode": mode, "entry": entry,
            "result": {"ok": slim(res["ok"])} if "ok" in res else res}
     case = {"recipe": dict(recipe, exact=bool(recipe.get("exact"))), "stage": stage, "req": req}
@@ -405,8 +483,13 @@ def evaluate(ctx, tables, recipe, tags, stage, axis=None, profile=None, poke_rng
     tags = list(tags) + ["axis=" + axis, "k=%d" % k, "stage=" + stage] + ["branch=" + b for b in sorted(set(br))]
     if profile:
         tags.append("profile=" + profile)
+    if kind == "tuple":
+        tags.append("container=tuple")
     if not prof_ok:
         ctx.fail(case, "error-profile-restored", tags)
+    if expected is not None and not (len(arg) == len(expected) and all(x is y for x, y in zip(arg, expected))):
+        # the caller's list must still hold exactly the tables the caller put there
+        ctx.fail(case, "operand-container-unchanged", tags, detail={"len_after": len(arg), "len_before": len(expected)})
     # operands are never changed by the call, refused or not, and stay coherent
     for i, t in enumerate(tables):
         if slim(core.table_obs(t)) != tobs[i]:
@@ -415,6 +498,11 @@ def evaluate(ctx, tables, recipe, tags, stage, axis=None, profile=None, poke_rng
             bad = own_lookups(t, tobs[i], look_rng)
             if bad:
                 ctx.fail(case, "operand-own-lookups", tags + ["operand=%d" % i], detail={"what": bad})
+    if kind == "tuple" and mode != "single" and etype == "AttributeError":
+        # as the tree stands a tuple of tables is turned away (`others[:]` is a tuple, `.insert` does not exist);
+        # the property speaks of one table or a list. An accepted tuple is judged like a list below.
+        ctx.count("container=tuple-refused")
+        return None, None, tobs, None
     if profile == "raise" and res.get("error") == "TableException" and any(0 in t.shape for t in tables):
         # an empty (intermediate or final) table under empty='raise': the profile, not concat, decides (C20)
         ctx.count("profile-raise-on-empty")
@@ -433,8 +521,10 @@ def evaluate(ctx, tables, recipe, tags, stage, axis=None, profile=None, poke_rng
     ctx.count("entry=%s/%s" % (entry, mode))
     if any(t["omd"] is not None or t["smd"] is not None for t in tobs):
         ctx.count("with-metadata")
-    if max(len(t["obs"]) for t in tobs) >= 64 or max(len(t["samp"]) for t in tobs) >= 64:
-        ctx.count("wide>=64")
+    widest = max(max(len(t["obs"]), len(t["samp"])) for t in tobs)
+    for thr in (64, 128, 256):
+        if widest > thr:
+            ctx.count("wide>%d" % thr)
     if not ans.get("model_holds", True):
         ctx.diverge(case, "theorem model_holds contradicted by the driver", tags, detail={"model": ans["model"]})
     if not ans["holds"]:
@@ -506,6 +596,20 @@ def check_case(ctx, recipe, tags=()):
                 ctx.fail(case, "alias-operand-changed-with-operand", ptags + ["operand=%d" % i], detail={"did": done})
         evaluate(ctx, tables, recipe, list(tags) + ["after=" + ",".join(done)], "recall-after-inplace",
                  poke_rng=prng, look_rng=prng)
+    elif post == "reuse_list":
+        # ONE list object owned by the caller, handed to several calls with different receivers: every call is
+        # judged on its own, and the list must still hold exactly what the caller put there
+        batch = list(tables[1:])
+        evaluate(ctx, tables, recipe, tags, "reuse-1", look_rng=prng, batch=batch, entry="method")
+        aids = [str(i) for i in tables[0].ids(axis=axis)]
+        other_recv = tables[0].update_ids({i: i + "~d" for i in aids}, axis=axis, inplace=False) if aids \
+            else tables[0].copy()
+        evaluate(ctx, [other_recv] + batch, recipe, tags, "reuse-2-other-receiver", look_rng=prng, batch=batch,
+                 entry="method")
+        evaluate(ctx, tables, recipe, tags, "reuse-3-first-receiver-again", look_rng=prng, batch=batch, entry="method")
+        evaluate(ctx, [other_recv] + batch, recipe, tags, "reuse-4-module", look_rng=prng, batch=batch, entry="module")
+        if len(batch) != len(tables) - 1 or any(x is not y for x, y in zip(batch, tables[1:])):
+            ctx.fail(case, "operand-container-unchanged", ptags, detail={"len_after": len(batch)})
     elif post == "altcall":
         # the same live objects again: other axis, then reversed operand order (nothing kept from the first call)
         evaluate(ctx, tables, recipe, tags, "other-axis", axis=other_of(axis), look_rng=prng)
@@ -629,10 +733,17 @@ def run(ctx):
                    tags=["fixed-corpus", "hardened"])
     edge_stream(ctx)
     # size thresholds: a few large operand sets, early and on both axes
-    for _ in range(1 if quick else 10):
-        for axis in AXES:
-            for wide_on in ("other", "axis"):
-                check_case(ctx, gen_wide(rng, axis, wide_on), tags=["wide"])
+    for rep in range(1 if quick else 8):
+        plan = [("sample", "other", rng.randint(257, 320), False, "method"),
+                ("observation", "other", rng.randint(257, 320), True, "module"),
+                ("observation", "other", rng.randint(129, 256), False, "method"),
+                ("sample", "other", rng.randint(129, 256), True, "module"),
+                ("sample", "axis", rng.choice([64, 130, 260]), rep % 2 == 0, None),
+                ("observation", "axis", rng.choice([70, 129, 300]), rep % 2 == 1, None)]
+        if rep % 2:
+            plan = [(other_of(a), w, n, not p, e) for a, w, n, p, e in plan]
+        for axis, wide_on, n, padded, entry in plan:
+            check_case(ctx, gen_wide(rng, axis, wide_on, n, padded, entry), tags=["wide"])
     # systematic sweep: every (axis, k, mode, entry) combination at least a few times
     reps = 2 if quick else 12
     for axis in AXES:
